@@ -169,6 +169,38 @@ def Block.wf (s : Nat) (b : Block) : Prop := b.valid ≤ b.mem.length ∧ s ∣ 
 /-- the records in the valid part of a block -/
 def Block.records (s : Nat) (b : Block) : List (List Nat) := recordsOf s (b.mem.take b.valid)
 
+/-! ### a queue entry's file buffer at byte level -/
+
+/-- `MergeQueue::Entry` (sort.hh:154-200) in bytes: `buf` = the bytes from `current_` to
+`buffer_end_`, `file` = the `remaining_` bytes of the run still on disk. -/
+structure ByteEntry where
+  buf : Buf
+  file : Buf
+  deriving Repr, DecidableEq
+
+/-- `Entry::Read`: load `min(per_buffer, remaining_)` bytes; `none` = nothing remains -/
+def ByteEntry.read (cap : Nat) (file : Buf) : Option ByteEntry :=
+  match file with
+  | [] => none
+  | _ :: _ => some ⟨file.take cap, file.drop cap⟩
+
+/-- `Current()`: the record at `current_` -/
+def ByteEntry.current (E : Nat) (e : ByteEntry) : List Nat := e.buf.take E
+
+/-- `Entry::Increment`: `current_ += entry_size; if (current_ != buffer_end_) return true; return Read(…)`.
+The test is an *equality* test: if fewer than `entry_size` bytes are left in the buffer,
+`current_` jumps past `buffer_end_` and the entry keeps reading beyond its buffer — undefined
+behaviour, `.error ()` here.  This is why `per_buffer` is rounded down to a multiple of the entry
+size (sort.hh:269). -/
+def ByteEntry.increment (E cap : Nat) (e : ByteEntry) : Except Unit (Option ByteEntry) :=
+  if e.buf.length < E then .error ()
+  else if e.buf.length = E then .ok (ByteEntry.read cap e.file)
+  else .ok (some ⟨e.buf.drop E, e.file⟩)
+
+/-- the record-level view of a byte-level entry -/
+def ByteEntry.abs (E : Nat) (e : ByteEntry) : BufEntry (List Nat) :=
+  ⟨recordsOf E e.buf, recordsOf E e.file⟩
+
 /-! ### the chain blocks of the sorted output (sizes in records) -/
 
 /-- `MergingReader::ReadSingle` (sort.hh:308-321): full blocks while more than a block remains,
